@@ -66,6 +66,16 @@ def _non_herm_structured(rng, n):
         if not np.any(d[0, 1, 1:]):
             d[0, 1, 1] = d[1, 0, 1] = 0.5
         out["one_pair_not_conjugated"] = refq.qa(d)
+        # the violation confined to ONE component (w, i, j or k) of one entry: a check that compares the components separately and
+        # forgets one of them lets it pass
+        for ax, nm in enumerate("wijk"):
+            if ax > 0:
+                d = c.copy(); d[n // 2, n // 2, ax] = 0.5
+                out[f"diag_nonreal_only_{nm}"] = refq.qa(d)
+            d = c.copy(); d[0, n - 1, ax] += 0.7
+            out[f"one_entry_{nm}_component_changed"] = refq.qa(d)
+            d = c.copy(); d[0, n - 1, ax] = 0.4; d[n - 1, 0, ax] = 0.4 if ax > 0 else -0.4      # symmetric where skew is required (and vice versa)
+            out[f"pair_wrong_symmetry_in_{nm}"] = refq.qa(d)
         # widely graded entries: one huge (real, diagonal) entry next to an O(1) violation in the small entries - a test that measures
         # the asymmetry against the norm of the whole matrix lets it pass
         for big in (4e6, 1e8, 1e12):
